@@ -1,6 +1,7 @@
 import IgrisModel.C12.Model
+import IgrisModel.C12.Canon
 import IgrisModel.Common.Proto
-open Igris.Proto Igris.C12 Igris.C12.FloatLike
+open Igris.Proto Igris.C12 Igris.C12.FloatLike Igris.C12.Canon
 
 /-! Line-protocol driver of C12: the model runs on the software binary32/binary64 instance. -/
 
@@ -24,6 +25,76 @@ def ftoaLine (r : Option (List Nat)) : String :=
   | some t => textHex t ++ " r0"
   | none => "ub"
 
+/-! round 3b: the TOLERANT observable (see Canon.lean).  A line carries the correctly rounded reference (a function
+    of the input alone), what the property fixes exactly (sign / class / end offset / returned pointer / tokens) and
+    the verdict "the model's own result lies within the allowance of the harness oracle" - never the model's own
+    bits or digits: the property grants "a few ulps" / "one unit of the last digit". -/
+
+def verdictStr (b : Bool) : String := if b then "within" else "outside"
+
+/-- parser ops.  `single`: accuracy and reference of binary32; `is32`: the result is a `float32_t` (8 hex digits),
+    otherwise a double (a widened float for the WITHOUT_ATOF64 flavours); `own` = encoding of the model's result in
+    the result type and the end offset -/
+structure ParseRec where
+  refBits : Nat     -- encoding of the reference in the result type
+  width : Nat       -- bytes of the result type
+  cls : Nat
+  endOff : Nat
+  ok : Bool
+
+def parseRec (single is32 strict : Bool) (s : List Nat) (ob e : Nat) : ParseRec :=
+  let L := matchLit s
+  let rf := if single then b32 else b64
+  let rb := refBits rf L
+  let of := if is32 then b32 else b64
+  let shown := if is32 then rb else if single then sfCvt b32 b64 rb else rb
+  -- bit-identical to the reference (and not NaN): inside every allowance; otherwise the allowance over `Rat`
+  let same := shown == ob && !sfIsNaN of ob
+  let ok := same || atofWithin single strict L (valOf rf rb) (valOf of ob)
+  { refBits := shown, width := if is32 then 4 else 8, cls := classOf rf L rb of ob, endOff := e, ok := ok }
+
+def parseCanon (single is32 strict withEnd : Bool) (s : List Nat) (own : Option (Nat × Nat)) : String :=
+  match own with
+  | none => "fault"
+  | some (ob, e) =>
+    let c := parseRec single is32 strict s ob e
+    hexOfNat (2 * c.width) c.refBits ++ " " ++ className c.cls ++ (if withEnd then " e" ++ toString e else "") ++ " " ++
+      verdictStr c.ok
+
+/-- renderer ops (igris_f32toa / f64toa / ftoa): argument encoding in `af`, the float the renderer works on in `fb` -/
+def ftoaCanon (fromDouble : Bool) (af : Fmt) (ab : Nat) (fb : Nat) (prec8 : Int) (own : Option (List Nat)) : String :=
+  match own with
+  | none => "ub"
+  | some t =>
+    let tok (c : List Nat) := textHex c ++ " r0 " ++ verdictStr (t == c)
+    match valOf b32 fb, valOf af ab with
+    | .nan, _ => tok tokNan
+    | _, .nan => tok tokNan
+    | .inf s, .inf _ => tok ((if s then 45 else 43) :: tokInf)
+    | _, .inf s => tok ((if s then 45 else 43) :: tokInf)
+    | fv, .fin s a =>
+      let (fneg, fa) : Bool × Rat := match fv with | .fin fs q => (fs && q != 0, q) | _ => (false, pow2Q 128)
+      let p := effP fa prec8
+      textHex (canonText s a p) ++ " r0 " ++ verdictStr (ftoaWithin fromDouble fneg a p t)
+
+/-- debug printers -/
+def dprintCanon (ab : Nat) (prec : Int) (own : Option (List Nat)) : String :=
+  match own with
+  | none => "ub"
+  | some t =>
+    let tok (c : List Nat) := textHex c ++ " " ++ verdictStr (t == c)
+    match valOf b64 ab with
+    | .nan => tok tokNan
+    | .inf s => tok ((if s then 45 else 43) :: tokInf)
+    | .fin s a =>
+      let p : Nat := if prec > 18 then 18 else prec.toNat
+      textHex (canonText s a p) ++ " " ++ verdictStr (dprintWithin (s && a != 0) a p t)
+
+def fnvStr (h : UInt64) (s : String) : UInt64 := s.foldl (fun h c => fnvStep h c.toNat) h
+
+def f32Line (b : Nat) (prec8 : Int) : String := ftoaCanon false b32 b b prec8 (f32toa (⟨b⟩ : F32) prec8)
+def f64Line (b : Nat) (prec8 : Int) (own : Option (List Nat)) : String := ftoaCanon true b64 b (sfCvt b64 b32 b) prec8 own
+
 def hashRange (start n stride : Nat) (prec : Int) : String :=
   let rec go (k : Nat) (i : Nat) (h : UInt64) (done : Nat) : UInt64 × Nat :=
     match k with
@@ -31,25 +102,16 @@ def hashRange (start n stride : Nat) (prec : Int) : String :=
     | k + 1 =>
       let b := (start + i * stride) % 2 ^ 32
       if f32OutOfRange b then go k (i + 1) h done
-      else
-        match f32toa (⟨b⟩ : F32) prec with
-        | some t =>
-          let h := t.foldl fnvStep h
-          let h := fnvStep (fnvStep h 0) 0
-          go k (i + 1) h (done + 1)
-        | none => go k (i + 1) (fnvStep h 255) (done + 1)
+      else go k (i + 1) (fnvStr h (f32Line b prec)) (done + 1)
   let (h, done) := go n 0 0xcbf29ce484222325 0
   hexOfNat 16 h.toNat ++ " " ++ toString done
 
-def atofLine32 (withEnd : Bool) (r : Option (F32 × Nat)) : String :=
-  match r with
-  | some (v, e) => showF32 v ++ (if withEnd then " e" ++ toString e else "")
-  | none => "fault"
+def atofLine32 (withEnd : Bool) (s : List Nat) (r : Option (F32 × Nat)) : String :=
+  parseCanon true true false withEnd s (r.map fun (v, e) => (v.bits, e))
 
-def atofLine64 (withEnd : Bool) (r : Option (F64 × Nat)) : String :=
-  match r with
-  | some (v, e) => showF64 v ++ (if withEnd then " e" ++ toString e else "")
-  | none => "fault"
+/-- `single`: the double is a widened float (WITHOUT_ATOF64 flavour) -/
+def atofLine64 (single strict withEnd : Bool) (s : List Nat) (r : Option (F64 × Nat)) : String :=
+  parseCanon single false strict withEnd s (r.map fun (v, e) => (v.bits, e))
 
 def sfOp (op : String) (a b : Nat) : Option String :=
   match op with
@@ -93,24 +155,6 @@ def gxString : Nat → Nat → List Nat
   | 0, _ => [0]
   | k + 1, c => gxAlpha[c % 10]! :: gxString k (c / 10)
 
-def feedLE (h : UInt64) : Nat → UInt64 → UInt64
-  | 0, _ => h
-  | n + 1, v => feedLE ((h ^^^ (v &&& 255)) * 0x100000001b3) n (v >>> 8)
-
-def feed64 (h : UInt64) (withEnd : Bool) (r : Option (F64 × Nat)) : UInt64 :=
-  match r with
-  | none => fnvStep h 0xfd
-  | some (v, e) =>
-    let h := feedLE h 8 (if sfIsNaN b64 v.bits then 0xffffffffffffffff else UInt64.ofNat v.bits)
-    fnvStep h (if withEnd then e % 256 else 255)
-
-def feed32 (h : UInt64) (withEnd : Bool) (r : Option (F32 × Nat)) : UInt64 :=
-  match r with
-  | none => fnvStep h 0xfd
-  | some (v, e) =>
-    let h := feedLE h 4 (if sfIsNaN b32 v.bits then 0xffffffff else UInt64.ofNat v.bits)
-    fnvStep h (if withEnd then e % 256 else 255)
-
 /- The nine entry points of one string.  The wrappers are, by definition, igrisAtof64 resp. igrisAtof32
    followed by a projection / widening (the `example`s below check that by `rfl`), so the driver
    evaluates each parser once per string. -/
@@ -122,19 +166,34 @@ example (s : List Nat) : igrisStrtod32 F64.toF32 F32.toF64 s = (a32 s).map fun (
 example (s : List Nat) : compatStrtod32 F64.toF32 F32.toF64 s = (a32 s).map fun (v, e) => (F32.toF64 v, e) := rfl
 example (s : List Nat) : compatAtof32 F64.toF32 F32.toF64 s = (a32 s).map fun (v, _) => F32.toF64 v := rfl
 
+def feedLE (h : UInt64) : Nat → UInt64 → UInt64
+  | 0, _ => h
+  | n + 1, v => feedLE ((h ^^^ (v &&& 255)) * 0x100000001b3) n (v >>> 8)
+
+def feedRec (h : UInt64) (withEnd : Bool) (c : Option ParseRec) : UInt64 :=
+  match c with
+  | none => fnvStep h 0xfd
+  | some c =>
+    let h := feedLE h c.width (UInt64.ofNat c.refBits)
+    let h := fnvStep h c.cls
+    let h := fnvStep h (if withEnd then c.endOff % 256 else 255)
+    fnvStep h (if c.ok then 1 else 0)
+
 def gxOne (h : UInt64) (s : List Nat) : UInt64 :=
   let r64 : Option (F64 × Nat) := igrisAtof64 s
   let r32 := a32 s
-  let w32 : Option (F64 × Nat) := r32.map fun (v, e) => (F32.toF64 v, e)
-  let h := feed64 h true r64      -- igris_atof64
-  let h := feed64 h true r64      -- igris_strtod
-  let h := feed64 h true r64      -- compat strtod
-  let h := feed64 h false r64     -- compat atof
-  let h := feed32 h true r32      -- igris_atof32
-  let h := feed32 h true r32      -- binreader::read_ascii_decimal_float
-  let h := feed64 h true w32      -- igris_strtod, WITHOUT_ATOF64
-  let h := feed64 h true w32      -- compat strtod, WITHOUT_ATOF64
-  feed64 h false w32              -- compat atof, WITHOUT_ATOF64
+  let c64 := r64.map fun (v, e) => parseRec false false false s v.bits e
+  let c32 := r32.map fun (v, e) => parseRec true true false s v.bits e
+  let cw := r32.map fun (v, e) => parseRec true false false s (F32.toF64 v).bits e
+  let h := feedRec h true c64      -- igris_atof64
+  let h := feedRec h true c64      -- igris_strtod
+  let h := feedRec h true c64      -- compat strtod
+  let h := feedRec h false c64     -- compat atof
+  let h := feedRec h true c32      -- igris_atof32
+  let h := feedRec h true c32      -- binreader::read_ascii_decimal_float
+  let h := feedRec h true cw       -- igris_strtod, WITHOUT_ATOF64
+  let h := feedRec h true cw       -- compat strtod, WITHOUT_ATOF64
+  feedRec h false cw               -- compat atof, WITHOUT_ATOF64
 
 def gxBatch (len : Nat) : Nat → Nat → UInt64 → UInt64
   | 0, _, h => h
@@ -142,15 +201,16 @@ def gxBatch (len : Nat) : Nat → Nat → UInt64 → UInt64
 
 def parseKind (k : String) (s : List Nat) : Option String :=
   match k with
-  | "a32" | "brf" => some (atofLine32 true (a32 s))
-  | "a32n" => some (atofLine32 false (a32 s))
-  | "a64" | "a64u" => some (atofLine64 true (igrisAtof64 s))
-  | "istd" => some (atofLine64 true (igrisStrtod s))
-  | "strtod" => some (atofLine64 true (compatStrtod s))
-  | "atof" => some (atofLine64 false ((compatAtof (F := F64) s).map fun v => (v, 0)))
-  | "istd32" => some (atofLine64 true (igrisStrtod32 F64.toF32 F32.toF64 s))
-  | "strtod32" => some (atofLine64 true (compatStrtod32 F64.toF32 F32.toF64 s))
-  | "atof32c" => some (atofLine64 false ((compatAtof32 F64.toF32 F32.toF64 s).map fun v => (v, 0)))
+  | "a32" | "brf" => some (atofLine32 true s (a32 s))
+  | "a32n" => some (atofLine32 false s (a32 s))
+  | "a64" => some (atofLine64 false false true s (igrisAtof64 s))
+  | "a64u" => some (atofLine64 false true true s (igrisAtof64 s))
+  | "istd" => some (atofLine64 false false true s (igrisStrtod s))
+  | "strtod" => some (atofLine64 false false true s (compatStrtod s))
+  | "atof" => some (atofLine64 false false false s ((compatAtof (F := F64) s).map fun v => (v, 0)))
+  | "istd32" => some (atofLine64 true false true s (igrisStrtod32 F64.toF32 F32.toF64 s))
+  | "strtod32" => some (atofLine64 true false true s (compatStrtod32 F64.toF32 F32.toF64 s))
+  | "atof32c" => some (atofLine64 true false false s ((compatAtof32 F64.toF32 F32.toF64 s).map fun v => (v, 0)))
   | _ => none
 
 /-- `B1 N1 B2 N2 ...` -> N1 times the byte B1, ... -/
@@ -166,22 +226,26 @@ def expandRuns : List String → Option (List Nat)
 def bytesOf (t : String) : List Nat := t.toList.map (·.toNat)
 
 def premainLine : String :=
-  let f := fun (t : Option (List Nat)) => match t with | some t => textHex t | none => "ub"
-  "a64=" ++ atofLine64 true (igrisAtof64 (bytesOf "-12.5e-1x" ++ [0])) ++
-  " a32=" ++ atofLine32 true (a32 (bytesOf "3.25e1" ++ [0])) ++
-  " istd=" ++ atofLine64 true (igrisStrtod (bytesOf "7." ++ [0])) ++
-  " strtod=" ++ atofLine64 true (compatStrtod (bytesOf ".5e1" ++ [0])) ++
-  " istd32=" ++ atofLine64 true (igrisStrtod32 F64.toF32 F32.toF64 (bytesOf "2.5" ++ [0])) ++
-  " f32=" ++ f (f32toa (⟨0x3dcccccd⟩ : F32) 6) ++
-  " ftoa=" ++ f (f64toa F64.toF32 (⟨0x40934a456d5cfaad⟩ : F64) (-1))
+  let z := fun (t : String) => bytesOf t ++ [0]
+  "a64=" ++ atofLine64 false false true (z "-12.5e-1x") (igrisAtof64 (z "-12.5e-1x")) ++
+  " a32=" ++ atofLine32 true (z "3.25e1") (a32 (z "3.25e1")) ++
+  " istd=" ++ atofLine64 false false true (z "7.") (igrisStrtod (z "7.")) ++
+  " strtod=" ++ atofLine64 false false true (z ".5e1") (compatStrtod (z ".5e1")) ++
+  " istd32=" ++ atofLine64 true false true (z "2.5") (igrisStrtod32 F64.toF32 F32.toF64 (z "2.5")) ++
+  " f32=" ++ f32Line 0x3dcccccd 6 ++
+  " ftoa=" ++ f64Line 0x40934a456d5cfaad (-1) (f64toa F64.toF32 (⟨0x40934a456d5cfaad⟩ : F64) (-1))
 
 def szLine : String :=
   "float32_t=4 float64_t=8 atof32=4 atof64=8 strtod=8 strtod32=8 ftoa32arg=4 int=4 maxprec=" ++ toString MAX_PRECISION
 
+/-- op `tbl` (round 3b): the clamp and, for every precision, the canonical lines of 0.55e-p and 0.45e-p
+    (`(float)` of the double literal) -/
 def tblLine : String :=
-  toString MAX_PRECISION ++ String.join ((List.range (MAX_PRECISION + 1)).map fun i =>
-    let d : F64 := ⟨sfLit b64 5 (i + 1)⟩
-    " " ++ showF64 d ++ ":" ++ showF32 (rounder i : F32))
+  "maxprec=" ++ toString MAX_PRECISION ++ String.join ((List.range MAX_PRECISION).map fun i =>
+    let p := i + 1
+    let up : F32 := F64.toF32 ⟨sfLit b64 55 (p + 2)⟩
+    let dn : F32 := F64.toF32 ⟨sfLit b64 45 (p + 2)⟩
+    " " ++ f32Line up.bits p ++ " " ++ f32Line dn.bits p)
 
 def stepLine (_ : Unit) (line : String) : Unit × String :=
   let r : Option String :=
@@ -190,19 +254,19 @@ def stepLine (_ : Unit) (line : String) : Unit × String :=
     | ["f32", b, p] => do
         let b ← parseHexNat? b
         let p ← parseInt? p
-        pure (ftoaLine (f32toa (⟨b⟩ : F32) (int8 p)))
+        pure (f32Line b (int8 p))
     | ["f64", b, p] => do
         let b ← parseHexNat? b
         let p ← parseInt? p
-        pure (ftoaLine (f64toa F64.toF32 (⟨b⟩ : F64) (int8 p)))
+        pure (f64Line b (int8 p) (f64toa F64.toF32 (⟨b⟩ : F64) (int8 p)))
     | ["ftoa", b, p] => do
         let b ← parseHexNat? b
         let p ← parseInt? p
-        pure (ftoaLine (f64toa F64.toF32 (⟨b⟩ : F64) (int8 p)))
+        pure (f64Line b (int8 p) (f64toa F64.toF32 (⟨b⟩ : F64) (int8 p)))
     | ["ftoa32", b, p] => do
         let b ← parseHexNat? b
         let p ← parseInt? p
-        pure (ftoaLine (igrisFtoa32 F64.toF32 (⟨b⟩ : F64) (int8 p)))
+        pure (f64Line b (int8 p) (igrisFtoa32 F64.toF32 (⟨b⟩ : F64) (int8 p)))
     | ["f32h", s, n, st, p] => do
         let s ← parseHexNat? s
         let n ← n.toNat?
@@ -227,11 +291,11 @@ def stepLine (_ : Unit) (line : String) : Unit × String :=
     | ["dpd", b, p] => do
         let b ← parseHexNat? b
         let p ← parseInt? p
-        pure (match dprintDouble (⟨b⟩ : F64) p with | some t => textHex t | none => "ub")
+        pure (dprintCanon b p (dprintDouble (⟨b⟩ : F64) p))
     | ["dpf", b, p] => do
         let b ← parseHexNat? b
         let p ← parseInt? p
-        pure (match dprintDouble (F32.toF64 ⟨b⟩) p with | some t => textHex t | none => "ub")
+        pure (dprintCanon (F32.toF64 ⟨b⟩).bits p (dprintDouble (F32.toF64 ⟨b⟩) p))
     | ["sf", op, a] => do
         let a ← parseHexNat? a
         sfOp op a 0
